@@ -77,7 +77,10 @@ def _run_case(case):
             psi = ED.full_to_mps(npc.Array.from_ndarray(vec, [full.legs[0]]))
         v0 = _dense(psi, ED)
         q0 = psi.get_total_charge().tolist()
-        cf = dict(case, chi_max=4 ** (M.lat.N_sites // 2 + 1), svd_min=1e-15, start_time=0.0, start_eps=None)
+        # cbe_expand: "untruncated" QR-TEBD needs a complete expansion (eta >= d*chi); smaller rates truncate
+        # heuristically even below chi_max (documented), which would pollute the convergence rate
+        cf = dict(case, chi_max=4 ** (M.lat.N_sites // 2 + 1), svd_min=1e-15, start_time=0.0, start_eps=None,
+                  cbe_expand=10.0)
         if case['engine'] == 'ExpMPO':
             cf['preserve_norm'] = False   # otherwise psi.norm is reset and a wrong norm of U would be invisible
         n1 = case.get('split', 0) * 2 ** k
@@ -203,16 +206,19 @@ def gen_cases(rng, thorough=False):
     cases.append(base('TDVP2', lr(L=rng.choice([4, 5])), dt=[1, 8], N=2, skip_state_error=True))
     cases.append(base('TDVP1', lr(conserve=None, L=rng.choice([4, 5])), dt=[1, 8], N=2,
                       random_state=rng.randrange(10 ** 6)))
-    combos = [(a, c, o) for a in ('I', 'II') for c in ('SVD', 'zip_up', 'variational') for o in (1, 2)]
+    combos = [(a, c, o) for a in ('I', 'II') for c in ('SVD', 'zip_up', 'variational', 'variationalQR') for o in (1, 2)]
     for a, c, o in (combos if thorough else rng.sample(combos, 4)):
-        cases.append(base('ExpMPO', lr(L=rng.choice([4, 5]) if c == 'variational' else None), approximation=a,
-                          compression=c, order=o, dt=[1, 16]))
+        cases.append(base('ExpMPO', lr(L=rng.choice([4, 5]) if c.startswith('variational') else None), approximation=a,
+                          compression=c, order=o, dt=[1, 16], imag=(rng.random() < 0.25)))
     # time-dependent variants
     tdm = dict(nn(), amp=rng.choice([0.5, 1.0]), omega=rng.choice([1.0, 3.0]), hz=0.25)
     cases.append(dict(base('TEBD', tdm, order=rng.choice([1, 2]), dt=[1, 8]), td=True))
     tdl = dict(lr(L=4), amp=0.5, omega=2.0)
     cases.append(dict(base('ExpMPO', tdl, dt=[1, 16], N=2, order=2, approximation='II', compression='SVD'), td=True))
     cases.append(dict(base('TDVP2', dict(nn(), amp=0.5, omega=2.0, L=4), dt=[1, 8], N=2), td=True))
+    # time-dependent one-site TDVP at full bond dimension: exact for every piecewise-constant step
+    cases.append(dict(base('TDVP1', dict(lr(conserve=None, L=4), amp=0.5, omega=2.0), dt=[1, 8], N=2,
+                           random_state=rng.randrange(10 ** 6)), td=True))
     if thorough:
         cases.append(base('TDVP2', nn(), dt=[1, 8], N=2, imag=True))
         cases.append(dict(base('QRTEBD', tdm, order=2, dt=[1, 8]), td=True))
